@@ -144,8 +144,8 @@ class Replayer:
             # identity 999: a reference into an unrelated table (never derivable in any behaviour)
             other = self.B.table(bk, len(self.B.srcs) - 1, name="unrelated")
             s.colmap[999] = other[self.B.srcs[-1]["cols"][0][0]]
-            if self.opts.get("immut"):
-                s.pool = {}
+            if self.opts.get("immut") or self.opts.get("pool"):
+                s.pool = {}         # "pool": shared expression objects only (a user who keeps an expression in a variable), no fingerprint checks
             sides[bk] = s
         return Node(sides)
 
